@@ -1,4 +1,6 @@
 import Qryn.Tempo.SearchParse
+import Qryn.Tempo.Legacy
+import Qryn.Proofs.ConfineTempo
 import Qryn.Read.ConfineSearch
 import Qryn.Read.Tables
 import Driver.C07
@@ -83,6 +85,12 @@ def handle : List String → Option String
     | none => some "unparsed"
     | some st =>
       some s!"parsed {searchConfined lokiCfg w st} table={lokiCfg.kind st.table == .data} dates={st.idxs.all (idxDatesOk lokiCfg w)} span={spanBounded w st} idx={st.idxs.any (idxBounded w)} {rowsOut (searchRows Driver.C11.orc db st)}"
+  | ["c13tquery", startNs, endNs, tid, cl, tt, ttd] => do
+    let q : QueryReq := ⟨← startNs.toInt?, ← endNs.toInt?, ← ofHex tid, cl = "1", ← Driver.C07.str? tt, ← Driver.C07.str? ttd⟩
+    let s := queryRequest q
+    some s!"{hexOut (renderSel s)} {confined lokiCfg (winQuery q) s || q.startNs == 0 || q.endNs == 0} {lokiCfg.kind q.tracesTable == .data && lokiCfg.kind q.tracesDistTable == .data}"
+  | ["c13ttagsreq", kv] => do some (hexOut (renderSel (tagsRequest (← Driver.C07.str? kv))))
+  | ["c13tvaluesreq", kv, tag] => do some (hexOut (renderSel (valuesRequest (← Driver.C07.str? kv) (valuesTag (← ofHex tag)))))
   | ["c13tver", rows, tables, ver, fromNs] => do
     let (v, _) ← ver? [rows, tables]
     some (toString (isVersionSupported v (← ofHex ver) (← fromNs.toInt?)))
